@@ -314,6 +314,15 @@ class OptRunner:
                     "blocks": [rm.snap_block(self.block_state(p, bi)) for bi in range(len(sls))] if self._blocks_ok(p, len(sls)) else None,
                 }
         steps_before = [int(self.opt.state[ps[0]]["step"].item()) for ps in self.params]
+        # a history whose parameters have grown by more than eight orders of magnitude has diverged (e.g. coupled decay with lr ~ 1 and roots ~1e10):
+        # state then sits at the edges of the exponent range (subnormal roots, factors ~1e23) where the rounding model of the reference stops being
+        # meaningful.  The history ends here and is counted; everything up to this step has been checked.
+        gs0 = max(1.0, float(self.groups[0]["cfg"].get("gscale", 1.0)))
+        wmax = max((float(p.detach().abs().max()) for p in self.all_params() if p.numel()), default=0.0)
+        if not (wmax <= 1e8 * gs0):
+            self.dead = True
+            self.out.classes.append("diverged_history")
+            return fails
         try:
             self.opt.step()
         except Exception as e:  # noqa: BLE001
